@@ -51,6 +51,11 @@ Theorem C04_new_checked_in_every_configuration :
   forallb (new_checked new_cfg_guards) configurations = true.
 Proof. vm_compute. reflexivity. Qed.
 
+(** the translator recognised the assertion in the body of [new] (otherwise the theorem above is
+    about an empty table and the orchestrator reports it as not shown) *)
+Theorem C04_new_guards_understood : new_guards_known = true.
+Proof. reflexivity. Qed.
+
 Theorem C04_new_panics_exactly_out_of_range : forall enabled max v,
   In enabled configurations ->
   nt_new new_cfg_guards enabled max v = if N.leb v max then Ok v else Panic.
@@ -82,6 +87,7 @@ Print Assumptions C04_types_as_documented.
 Print Assumptions C04_every_conversion_entry_ok.
 Print Assumptions C04_conversions_stay_in_range.
 Print Assumptions C04_new_checked_in_every_configuration.
+Print Assumptions C04_new_guards_understood.
 Print Assumptions C04_new_panics_exactly_out_of_range.
 Print Assumptions C04_parse_in_range.
 Print Assumptions C04_constants_in_range.
